@@ -690,9 +690,16 @@ int main() {
 		} else if (name == "copy") {
 			unsigned src = w.size() > 3 ? num(w[3]) : 99;
 			if (exists || src >= SLOTS || !g_m[src]) { rejected("copy"); continue; }
-			std::memset(g_buf[i], w.size() > 4 ? static_cast<int>(num(w[4])) : 0, sizeof(g_buf[i]));
+			const int fillv = w.size() > 4 ? static_cast<int>(num(w[4])) : 0;
+			std::memset(g_buf[i], fillv, sizeof(g_buf[i]));
 			VERIF_UNDEFINED(g_buf[i], sizeof(g_buf[i]));
 			g_cur = reinterpret_cast<Instance*>(g_buf[i]);
+#if CTX_KIND != 1
+			// move construction is member-wise in this library (no member owns anything): the new instance must be what a copy
+			// would be and the source must stay what it was (reference contexts: the move constructor does not compile, O3)
+			if (fillv & 2) m = g_m[i] = new (g_buf[i]) Instance{static_cast<Instance&&>(*g_m[src])};
+			else
+#endif
 			m = g_m[i] = new (g_buf[i]) Instance{*g_m[src]};
 			apiLine("copy", m, -1, "~");
 		} else if (name == "enter") {
